@@ -50,9 +50,10 @@ class PushedAuthorization(Authorization):
 
         _urn = "urn:uuid:{}".format(uuid.uuid4())
         # Store the parsed and verified request, together with the end of the lifetime that
-        # is announced below
+        # is announced below. Stored as a dictionary: the pending requests are part of the
+        # state the context exports, and an export has to be JSON serialisable
         self.upstream_get("context").par_db[_urn] = {
-            "request": _request,
+            "request": _request.to_dict(),
             "expires_at": utc_time_sans_frac() + self.ttl,
         }
 
